@@ -2,7 +2,7 @@
 \* (the driver switches them on one at a time and expects the invariant each one is about)
 SPECIFICATION Spec
 CONSTANTS NP = 2 NA = 2 NS = 2 V6 = {} BlackAddr = {} BlackMid = {} IpCap = 1 IntroCap = 1 SvcCap = 1
-          Defects = {"rba", "ipstale", "walk", "svcjoin"} MaxDepth = 6
+          NB = 0 IterBufs = {} Defects = {"rba", "ipstale", "walk", "svcjoin"} MaxDepth = 6
 VIEW NoRetOp
 INVARIANT TypeOK
 INVARIANT LookupsAgree
